@@ -29,6 +29,7 @@ extern pthread_mutex_t bidib_uplink_error_queue_mutex __attribute__((weak));
 extern pthread_mutex_t bidib_uplink_intern_queue_mutex __attribute__((weak));
 int __lsan_do_recoverable_leak_check(void) __attribute__((weak));
 void __sanitizer_set_death_callback(void (*cb)(void)) __attribute__((weak));
+void vf_on_property_failure(void) __attribute__((weak));
 }
 
 namespace vf {
@@ -107,6 +108,7 @@ void Ctx::fail(const std::string &msg) {
 		size_t nl = vf_log_count();
 		for (size_t i = nl > 25 ? nl - 25 : 0; i < nl; i++) fprintf(stderr, "  log: %s\n", vf_log_line(i));
 		fflush(stderr);
+		if (&vf_on_property_failure) vf_on_property_failure();      // the fuzz driver flushes its counters (a trap skips atexit)
 		__builtin_trap();
 	}
 	emit(*this, false, msg);
